@@ -1339,9 +1339,11 @@ func (w *_mapAssembler) AssembleKey() datamodel.NodeAssembler {
 
 func (w *_mapAssembler) AssembleValue() datamodel.NodeAssembler {
 	kval := w.curKey.val
+	if !w.valuesVal.IsNil() && w.valuesVal.MapIndex(kval).IsValid() {
+		return _errorAssembler{datamodel.ErrRepeatedMapKey{Key: &_node{w.cfg, w.schemaType.KeyType(), kval}}}
+	}
 	val := reflect.New(w.valuesVal.Type().Elem()).Elem()
 	finish := func() error {
-		// TODO: check for duplicates in keysVal
 		w.keysVal.Set(reflect.Append(w.keysVal, kval))
 
 		w.valuesVal.SetMapIndex(kval, val)
@@ -1361,6 +1363,9 @@ func (w *_mapAssembler) AssembleEntry(k string) (datamodel.NodeAssembler, error)
 		return nil, err
 	}
 	am := w.AssembleValue()
+	if am, ok := am.(_errorAssembler); ok {
+		return nil, am.err // a repeated key: report it now, when the key is supplied
+	}
 	return am, nil
 }
 
@@ -1455,6 +1460,15 @@ func (w *_unionAssembler) AssembleValue() datamodel.NodeAssembler {
 			},
 		}
 	}
+	if haveIdx, _ := unionMember(w.val); haveIdx >= 0 {
+		// A member was assembled already; a second entry must not silently replace it.
+		return _errorAssembler{
+			schema.ErrNotUnionStructure{
+				TypeName: w.schemaType.Name(),
+				Detail:   "a union must have exactly one entry",
+			},
+		}
+	}
 
 	goType := w.val.Field(idx).Type().Elem()
 	valPtr := reflect.New(goType)
@@ -1475,6 +1489,9 @@ func (w *_unionAssembler) AssembleEntry(k string) (datamodel.NodeAssembler, erro
 		return nil, err
 	}
 	am := w.AssembleValue()
+	if am, ok := am.(_errorAssembler); ok {
+		return nil, am.err // an unknown member, or a second entry: report it now
+	}
 	return am, nil
 }
 
